@@ -385,6 +385,9 @@ class SourceHandler:
     def _check_inserted_packet(self, packet: AbstractFileDirectiveBase) -> None:
         if packet.direction != Direction.TOWARDS_SENDER:
             raise InvalidPduDirection(Direction.TOWARDS_SENDER, packet.pdu_header.direction)
+        if packet.pdu_type == PduType.FILE_DATA:
+            # File Data PDUs have no directive type and are never targeted at the sender.
+            raise InvalidPduForSourceHandler(packet)
         if packet.source_entity_id.value != self.entity_id.value:
             raise InvalidSourceId(self.entity_id, packet.source_entity_id)
         # TODO: This can happen if a packet is received for which no transaction was started..
